@@ -97,6 +97,7 @@ def translate(repo='/repo'):
             if nm not in LIBC_ERRNO: raise TranslateError('unknown errno %s' % nm)
             val |= LIBC_ERRNO[nm]
         if km.group(1) == '_': default = val
+        elif km.group(2) not in KIND_CODE: raise TranslateError('encode_io_error_kind has an arm for ErrorKind::%s, which has no harness kind code' % km.group(2))
         else: kinds.append([km.group(2), val])
     if default is None: raise TranslateError('no default arm in encode_io_error_kind')
     return {'dispatch': table, 'default_errno': LIBC_ERRNO[dm.group(1)], 'consts': consts, 'forward': fwd,
@@ -104,6 +105,15 @@ def translate(repo='/repo'):
 
 KIND_CODE = {'PermissionDenied': 0, 'NotFound': 1, 'Interrupted': 2, 'AlreadyExists': 3, 'WouldBlock': 4, 'InvalidData': 5,
              'Other': 6, 'TimedOut': 7, 'UnexpectedEof': 8, 'WriteZero': 9}
+# every other stable io::ErrorKind has a harness code too (harness/src/bin/codec*.rs kind_of), so that an arm added to
+# encode_io_error_kind for ANY kind reaches the model comparison and can be scripted as a filesystem answer; a kind
+# this table does not know is a TranslateError, never a silently dropped arm
+KIND_EXT = ['ConnectionRefused', 'ConnectionReset', 'ConnectionAborted', 'NotConnected', 'AddrInUse', 'AddrNotAvailable',
+            'BrokenPipe', 'InvalidInput', 'Unsupported', 'OutOfMemory', 'HostUnreachable', 'NetworkUnreachable', 'NetworkDown',
+            'NotADirectory', 'IsADirectory', 'DirectoryNotEmpty', 'ReadOnlyFilesystem', 'StaleNetworkFileHandle', 'StorageFull',
+            'NotSeekable', 'QuotaExceeded', 'FileTooLarge', 'ResourceBusy', 'ExecutableFileBusy', 'Deadlock', 'CrossesDevices',
+            'TooManyLinks', 'InvalidFilename', 'ArgumentListTooLong']
+for _i, _k in enumerate(KIND_EXT): KIND_CODE[_k] = 10 + _i
 
 def emit_coq(t):
     L = ['(* GENERATED by translator/server_dispatch.py from /repo/src/api/server/*.rs, src/api/filesystem/sync_io.rs, src/lib.rs -- do not edit. *)',
